@@ -149,6 +149,7 @@ fn alphabet() -> Vec<O> {
     a.push(O::SetEmissions { index: 0, rate: RATE_HUGE, v2: false }); // must be refused: no vault holds a day of it
     // one day of this rate is 86_401 tokens: exactly one more than the reward-0 vault receives (unless collects drained it further)
     a.push(O::SetEmissions { index: 0, rate: ((86_401u128 << 64) + 86_399) / 86_400, v2: true });
+    a.push(O::SetEmissions { index: 0, rate: ((86_401u128 << 64) + 86_399) / 86_400, v2: false });
     a.push(O::SetEmissions { index: 1, rate: RATE_BIG, v2: true });
     a.push(O::InitReward { index: 1, v2: true });
     a.push(O::Base(Op::Inc { pos: 0, liq: stdworlds::BIG, v2: true }));
